@@ -1191,15 +1191,16 @@ C15.level_text = (
     "feeding it whole anywhere in a session.  scrollback_in_order(_scroll) and scrolled_back_view: a scroll appends "
     "exactly the departing top line, the scrollback only grows at its end, the scrolled-back view shows rows "
     "[len-k, len-k+height) of scrollback ++ screen.  vterm_refines_vt100 (THEOREM): for any command list over printable "
-    "text with autowrap, CR LF BS HT, CUP CUU CUD CUF CUB, EL ED, ICH DCH IL DL, DECSTBM, RI, classic SGR, DSR and the "
+    "text with autowrap, CR LF BS HT, CUP CUU CUD CUF CUB, EL ED, ICH DCH IL DL, DECSTBM, RI, SGR (classic values and the "
+    "38;5;n / 48;5;n palette and 38;2;r;g;b / 48;2;r;g;b direct colour forms in any mixture, each cell judged at the colour "
+    "depth its AttrSpec was pushed to), DSR and the "
     "character sets (SO/SI, ESC ( 0/B, ESC ) 0/B), any size, parameters below 2^4000, the emulator model fed with the "
     "byte encoding ends with screen contents (characters, renditions, character set of every cell), cursor and scrolling "
     "region equal to the independent reference VT100, its replies are exactly the reference's (DSR 5 / cursor position), "
     "and the scrollback holds exactly the lines that left the top of the reference's screen, in order (parser lemma on "
     "the decimal encoding + one simulation lemma per command + induction).  Corollaries: any_csi_is_survived, "
     "cut_anywhere (UTF-8 / escape state independent of chunk boundaries), scrolled_view_cursor_inside.  ORACLE / "
-    "CORRESPONDENCE ONLY: the palette (38;5;n) and direct (38;2;r;g;b) colour forms (implementation, extracted emulator "
-    "model, extracted Coq reference and an independent Python reference run against each other); the AttrSpec abstraction "
+    "CORRESPONDENCE ONLY: the AttrSpec abstraction "
     "of the model (swept against the real AttrSpec: complete for depths 1/16/256 in the thorough tier); the tie of the "
     "hand model to vterm.py (exact whole-state correspondence on ~9k cases per quick run).")
 C15.level_note = (
